@@ -435,7 +435,9 @@ def case_bootstrap(col, p):
         for i in range(c + 1):
             fr['c%d_%d' % (c, i + 1)] = {'segregating': ['A', 'T'], 'calls': {'A': (3, 1 + (c + i) % 3)}, 'outgroup_allele': 'A', 'context': '-A-', 'outgroup_context': '-A-'}
         frags.append(fr)
-    spectra = [np.asarray(dadi.Spectrum.from_data_dict(fr, ['A'], [3], mask_corners=False).data) for fr in frags]
+    if p.get('empty_chunk') is not None:
+        frags[p['empty_chunk']] = {}          # a genomic chunk without SNPs: it is drawn like any other and contributes nothing
+    spectra = [np.asarray(dadi.Spectrum.from_data_dict(fr, ['A'], [3], mask_corners=False).data) if fr else np.zeros(4) for fr in frags]
     real = random.choices
     n = 0
     try:
@@ -460,7 +462,7 @@ def case_bootstrap(col, p):
     finally:
         random.choices = real
     col.tick(states=n, traces=n)
-    col.distinct('nontrivial', ('bootstrap', nchunks))
+    col.distinct('nontrivial', ('bootstrap', nchunks, p.get('empty_chunk')))
 
 
 def case_boot_subsample(col, p):
@@ -647,6 +649,8 @@ def run(ctx):
         cases.append({'kind': 'boot_subsample', 'layout': layout})
     for k in (1, 2, 3, 4) + ((5, 6) if not ctx.quick else ()):
         cases.append({'kind': 'bootstrap', 'nchunks': k})
+    for k, e in ((2, 0), (3, 1), (4, 3)):
+        cases.append({'kind': 'bootstrap', 'nchunks': k, 'empty_chunk': e})
     for n in (2, 3, 4, 5, 6) + ((7, 8, 9, 10, 12, 16, 20) if not ctx.quick else ()):
         cases.append({'kind': 'stats1d', 'n': n})
     for ns in ((2, 3), (3, 3), (2, 2), (4, 2), (1, 5), (2, 2, 3)) + (((2, 7), (3, 4, 2), (5, 5), (1, 1), (6, 2), (3, 3, 3), (2, 2, 2, 2), (4, 3, 2)) if not ctx.quick else ()):
